@@ -65,6 +65,14 @@
 // unchanged; finding keys about a connection are qualified with the heartbeats registered on it.
 // Everything about heartbeats is inert for drivers that do not implement the interface.
 //
+// Connection event kinds (C09 search only, world.kinds; see "connection event kinds" below): "connection
+// close by either side" is enumerated with every close KIND pkg/network can name (RemoteClose,
+// LocalClose, OnReadErrClose, OnWriteErrClose, OnWriteTimeout), also from inside the write path
+// (new/wto, hb/wto: the connection closes itself on the writing goroutine), and the kinds that are
+// no close (OnReadTimeout, OnShutdown) are delivered as events the model does not know. The model's
+// table of kinds is written down in this file, not taken from api.ConnectionEvent.IsClose. The
+// accounting search of C10 (accounting.go) does not switch the kinds on and keeps its alphabet.
+//
 // Not compared (statement silent): which of several idle connections is leased;
 // what Shutdown does to idle connections (I2/I4 are not applied after Shutdown);
 // stats other than the two "active" gauges.
@@ -452,6 +460,82 @@ type world struct {
 	attempts       int       // connections the pool created during the last event
 	hbs            []*hbT    // (Heartbeats) the heartbeats sent so far
 	noSweep        bool      // (Heartbeats) a connection closed during a heartbeat event without the model's leave: its streams stay in flight in the model
+	kinds          bool      // the connection-event KIND is part of the alphabet (see connection event kinds below); set by the C09 search only
+}
+
+// ---------------------------------------------------------------------------
+// connection event kinds
+//
+// pkg/network tells a connection's listeners WHAT happened with one of the api.ConnectionEvent
+// values. The reference model (written down here, not read from api.ConnectionEvent.IsClose): the
+// five close kinds mean "this connection is closed" - whoever closed it, for whatever reason, the
+// streams on it end and it must leave the pool's books; every other kind that can arrive after the
+// connection was established is no event of the model at all.
+//
+//	rclose:c            RemoteClose      read loop: EOF / hang-up                       (always in the alphabet)
+//	lclose:c            LocalClose       anybody closing on purpose, write path: EOF buffer   (always)
+//	ev/OnReadErrClose:c OnReadErrClose   read loop: any other read error (RST)
+//	ev/OnWriteErrClose:c OnWriteErrClose not named by pkg/network itself (tunnel filter); a member of the type
+//	ev/OnWriteTimeout:c OnWriteTimeout   write path: a raw write of SOME writer ran into the write deadline
+//	ev/OnReadTimeout:c  no close         read loop: idle read timeout (pools with heartbeats: event hb)
+//	ev/OnShutdown:c     no close         pkg/server tells its (downstream) connections of a graceful stop
+//	new/wto             NewStream, then the write of THIS request runs into the write deadline: the
+//	                    connection closes itself with OnWriteTimeout on the writing goroutine, inside
+//	                    the stream's AppendHeaders, and the write returns the timeout error
+//	                    (vfake.Conn.FailWrite = what connection.writeDirectly does)
+//	hb/wto:c            (Heartbeats) idle read timeout whose heartbeat write runs into the write deadline
+//	new/werr            NewStream, then the write of this request fails with an error that is no timeout
+//	                    (EPIPE): the network layer does NOT close; the stream layer resets the stream itself
+//	                    (model: as a local reset - the connection is tainted for a ping-pong pool)
+//
+// Connected / ConnectFailed / ConnectTimeout are delivered by every Connect (events new, new/cf,
+// new/ct). Drivers with extra environment events on another connection (binding pool: dclose) get
+// the same kinds for it through ExtraKinds.
+var (
+	moreCloseKinds = []api.ConnectionEvent{api.OnReadErrClose, api.OnWriteErrClose, api.OnWriteTimeout}
+	allCloseKinds  = []api.ConnectionEvent{api.RemoteClose, api.LocalClose, api.OnReadErrClose, api.OnWriteErrClose, api.OnWriteTimeout}
+	quietKinds     = []api.ConnectionEvent{api.OnReadTimeout, api.OnShutdown}
+)
+
+func kindIn(k api.ConnectionEvent, set []api.ConnectionEvent) bool {
+	for _, x := range set {
+		if x == k {
+			return true
+		}
+	}
+	return false
+}
+
+// ExtraKinds is implemented by a driver whose ExtraEvents are connection events of another
+// connection (binding pool: the downstream connection): the engine then also enumerates
+// "<extra event>/<kind>" for every close kind (model: exactly the extra event) and every quiet kind
+// (model: nothing happens). The plain extra event delivers RemoteClose.
+type ExtraKinds interface {
+	ApplyExtraKind(pool types.ConnectionPool, ev string, kind api.ConnectionEvent) (outcome string)
+}
+
+// WriteDeadlockPredictor is implemented by a driver (Guarded) whose event new/wto can self-deadlock:
+// the precondition, as PredictDeadlock states it for the close events.
+type WriteDeadlockPredictor interface {
+	PredictWriteDeadlock(pool types.ConnectionPool) (class, detail string)
+}
+
+// quietGuard: a connection event that is no close is no event of the model. If a connection that
+// carries request streams is closed during it all the same, those streams stay in flight in the
+// model (the oracle then reports their destruction); the binding model's sweep is skipped.
+func (w *world) quietGuard(f func()) {
+	var busy []*connT
+	for _, c := range w.conns {
+		if c.open() && len(w.inflightOn(c)) > 0 {
+			busy = append(busy, c)
+		}
+	}
+	f()
+	for _, c := range busy {
+		if !c.open() {
+			w.noSweep = true
+		}
+	}
 }
 
 const waitTimeout = 20 * time.Second
@@ -649,7 +733,7 @@ func (w *world) apply(ev string) (outcome string) {
 		return w.conns[arg]
 	}
 	switch name {
-	case "new", "new/cf", "new/ct", "new/cf1":
+	case "new", "new/cf", "new/ct", "new/cf1", "new/wto", "new/werr":
 		if w.sched {
 			return w.newStreamSched()
 		}
@@ -724,6 +808,22 @@ func (w *world) apply(ev string) (outcome string) {
 		}
 		w.endStreamsOn(c, name)
 		return "closed"
+	case "ev/OnReadErrClose", "ev/OnWriteErrClose", "ev/OnWriteTimeout":
+		c := getC()
+		if c == nil {
+			return "bad"
+		}
+		c.envClosed = true
+		c.fc.Close(api.NoFlush, api.ConnectionEvent(name[3:]))
+		w.endStreamsOn(c, name)
+		return "closed"
+	case "ev/OnReadTimeout", "ev/OnShutdown":
+		c := getC()
+		if c == nil {
+			return "bad"
+		}
+		w.quietGuard(func() { c.fc.OnConnectionEvent(api.ConnectionEvent(name[3:])) })
+		return "delivered"
 	case "goaway":
 		c := getC()
 		if c == nil {
@@ -741,7 +841,7 @@ func (w *world) apply(ev string) (outcome string) {
 			w.endStreamsOn(c, "go-away-close")
 		}
 		return "announced"
-	case "hb":
+	case "hb", "hb/wto":
 		c := getC()
 		hd := w.hb()
 		if c == nil || hd == nil {
@@ -758,7 +858,31 @@ func (w *world) apply(ev string) (outcome string) {
 		if c.watched && c.kaFails+1 >= hd.FailCountToClose() {
 			c.kaMayClose = true
 		}
-		c.fc.OnConnectionEvent(api.OnReadTimeout)
+		if name == "hb/wto" {
+			// the write of the heartbeat runs into the write deadline: the connection closes itself with
+			// OnWriteTimeout inside the keep-alive's send (this is how an IDLE connection meets that kind)
+			faulted := false
+			c.fc.FailWrite = func(*vfake.Conn) error {
+				if faulted {
+					return nil
+				}
+				faulted = true
+				return vfake.ErrWriteDeadline()
+			}
+			c.fc.OnConnectionEvent(api.OnReadTimeout)
+			c.fc.FailWrite = nil
+			if faulted {
+				if c.open() {
+					w.harness("event %q: connection %d is still open after its write ran into the deadline", ev, c.idx)
+					return "bad"
+				}
+				c.envClosed = true
+				w.endStreamsOn(c, "write-timeout")
+				return "write-timeout"
+			}
+		} else {
+			c.fc.OnConnectionEvent(api.OnReadTimeout)
+		}
 		var wr []byte
 		for _, x := range c.fc.Writes[before:] {
 			wr = append(wr, x...)
@@ -863,6 +987,23 @@ func (w *world) apply(ev string) (outcome string) {
 				w.sweepClosed(ev)
 				return out
 			}
+			xk, ok := w.d.(ExtraKinds)
+			if !ok || !strings.HasPrefix(ev, e+"/") {
+				continue
+			}
+			kind := api.ConnectionEvent(ev[len(e)+1:])
+			switch {
+			case kindIn(kind, allCloseKinds):
+				out := xk.ApplyExtraKind(w.pool, e, kind)
+				w.syncConns()
+				w.sweepClosed(ev)
+				return out
+			case kindIn(kind, quietKinds):
+				var out string
+				w.quietGuard(func() { out = xk.ApplyExtraKind(w.pool, e, kind) })
+				w.syncConns()
+				return out
+			}
 		}
 	}
 	w.harness("unknown event %q", ev)
@@ -943,6 +1084,15 @@ func (w *world) predict(ev string) (string, string) {
 	case "rclose", "lclose":
 		if arg >= 0 && arg < len(w.conns) {
 			return w.d.PredictDeadlock(w.pool, name, w.conns[arg].fc)
+		}
+	case "new/wto":
+		if x, ok := w.d.(WriteDeadlockPredictor); ok {
+			return x.PredictWriteDeadlock(w.pool)
+		}
+	case "ev/OnReadErrClose", "ev/OnWriteErrClose", "ev/OnWriteTimeout":
+		// closed by the environment, as by rclose (the drivers' preconditions do not depend on the kind)
+		if arg >= 0 && arg < len(w.conns) {
+			return w.d.PredictDeadlock(w.pool, "rclose", w.conns[arg].fc)
 		}
 	}
 	return "", ""
@@ -1132,12 +1282,32 @@ func (w *world) newStream(variant string) string {
 		}
 	}
 	// lease-time checks need the state BEFORE the request is sent
-	inflightBefore := map[*connT]int{}
-	for _, c := range w.conns {
-		inflightBefore[c] = len(w.inflightOn(c))
+	inflightBefore := w.leaseSnapshot()
+	// new/wto, new/werr: the raw write of this request fails on whichever connection it is attempted
+	var faulted *connT
+	if variant == "new/wto" || variant == "new/werr" {
+		for _, c := range w.conns {
+			c := c
+			c.fc.FailWrite = func(*vfake.Conn) error {
+				if faulted != nil {
+					return nil // one fault; (after a timeout the connection is closed and no write gets here)
+				}
+				faulted = c
+				if variant == "new/wto" {
+					return vfake.ErrWriteDeadline()
+				}
+				return vfake.ErrWriteBroken()
+			}
+		}
 	}
 	aerr := sender.AppendHeaders(ctx, w.d.RequestHeaders(ctx), true)
+	for _, c := range w.conns {
+		c.fc.FailWrite = nil
+	}
 	w.syncConns()
+	if faulted != nil {
+		return w.newStreamWriteFailed(variant, s, faulted, inflightBefore, aerr)
+	}
 	var on *connT
 	for i, c := range w.conns {
 		before := 0
@@ -1173,13 +1343,79 @@ func (w *world) newStream(variant string) string {
 		return "ok-but-unsendable"
 	}
 	s.c = on
+	w.leaseChecks(s, on, inflightBefore)
+	if on.noRead {
+		w.poisoned = true
+	} else if err := w.d.AfterSend(sender); err != nil {
+		w.harness("after sending the request of stream %d: %v", s.ord, err)
+		return "bad"
+	}
+	return "ok"
+}
+
+// newStreamWriteFailed is the model's side of new/wto and new/werr: stream s was leased on the
+// connection on which its request write was attempted and failed.
+func (w *world) newStreamWriteFailed(variant string, s *strmT, on *connT, inflightBefore leaseSnap, aerr error) string {
+	w.streams = append(w.streams, s)
+	s.c = on
+	w.leaseChecks(s, on, inflightBefore)
+	if variant == "new/wto" {
+		// the network layer closed the connection (OnWriteTimeout) before the write returned
+		if on.open() {
+			w.harness("new/wto: connection %d is still open after its write ran into the deadline (AppendHeaders err=%v)", on.idx, aerr)
+			return "bad"
+		}
+		on.envClosed = true
+		w.endStreamsOn(on, "write-timeout")
+		return "write-timeout"
+	}
+	// no close by the network layer: the stream layer must give the stream up itself (it does so with
+	// a local reset); the request of a ping-pong connection was reset, so the connection is tainted
+	s.ended, s.endCause = true, "write-error"
+	if w.d.Kind() == PingPong {
+		taint(on, "local-reset")
+		on.doomed = true
+	}
+	if !on.noRead {
+		w.waitFor(fmt.Sprintf("stream %d to be destroyed after its request could not be written", s.ord), s, func() bool { return atomic.LoadInt32(&s.destroys) >= 1 })
+	}
+	return "write-error"
+}
+
+// leaseChecks are the lease-time checks of a stream placed on connection on.
+//
+// leaseSnap is what they need of the state in which the lease was given, i.e. before the request is
+// written (the write may close connections: new/wto).
+type leaseSnap struct {
+	inflight map[*connT]int
+	open     map[*connT]bool
+	hbq      map[*connT]string
+	curDown  *vfake.Conn
+}
+
+func (w *world) leaseSnapshot() leaseSnap {
+	ls := leaseSnap{inflight: map[*connT]int{}, open: map[*connT]bool{}, hbq: map[*connT]string{}}
+	for _, c := range w.conns {
+		ls.inflight[c] = len(w.inflightOn(c))
+		ls.open[c] = c.open()
+		ls.hbq[c] = w.hbq(c)
+	}
+	if bm, ok := w.d.(BindingModel); ok {
+		ls.curDown = bm.CurrentDownstream()
+	}
+	return ls
+}
+
+func (w *world) leaseChecks(s *strmT, on *connT, ls leaseSnap) {
+	pn := w.d.Name()
+	inflightBefore := ls.inflight
 	if bm, ok := w.d.(BindingModel); ok && w.model().Binding {
-		if down := bm.DownstreamOf(on.fc); down != bm.CurrentDownstream() {
+		if down := bm.DownstreamOf(on.fc); down != ls.curDown {
 			w.lease = append(w.lease, finding{"pool=" + pn + " I1 stream placed on the upstream connection of another downstream connection",
 				fmt.Sprintf("NewStream put stream %d on connection %d, which is bound to another downstream connection than the one of the request", s.ord, on.idx)})
 		}
 		for _, c := range w.conns {
-			if c != on && c.open() && !c.tainted() && !w.shutdown && bm.DownstreamOf(c.fc) == bm.DownstreamOf(on.fc) { // (Shutdown tells every client to go away)
+			if c != on && ls.open[c] && !c.tainted() && !w.shutdown && bm.DownstreamOf(c.fc) == bm.DownstreamOf(on.fc) { // (Shutdown tells every client to go away)
 				w.lease = append(w.lease, finding{"pool=" + pn + " I1 second upstream connection for one downstream connection",
 					fmt.Sprintf("NewStream put stream %d on connection %d although connection %d, bound to the same downstream connection, is open and did not announce go-away", s.ord, on.idx, c.idx)})
 			}
@@ -1191,17 +1427,10 @@ func (w *world) newStream(variant string) string {
 	}
 	if on.tainted() && !w.shutdown {
 		for _, t := range on.taints {
-			w.lease = append(w.lease, finding{"pool=" + pn + " I2 connection leased again after " + t + w.hbq(on),
+			w.lease = append(w.lease, finding{"pool=" + pn + " I2 connection leased again after " + t + ls.hbq[on],
 				fmt.Sprintf("NewStream put stream %d on connection %d, on which a %s happened earlier: the connection had to be closed, not reused", s.ord, on.idx, t)})
 		}
 	}
-	if on.noRead {
-		w.poisoned = true
-	} else if err := w.d.AfterSend(sender); err != nil {
-		w.harness("after sending the request of stream %d: %v", s.ord, err)
-		return "bad"
-	}
-	return "ok"
 }
 
 // enabled lists the events applicable in the current state.
@@ -1213,6 +1442,9 @@ func (w *world) enabled() []string {
 	out = append(out, "new", "new/cf", "new/ct")
 	if w.d.Kind() == Multiplex {
 		out = append(out, "new/cf1")
+	}
+	if w.kinds {
+		out = append(out, "new/wto", "new/werr")
 	}
 	for _, s := range w.inflight() {
 		if s.c.noRead {
@@ -1231,6 +1463,17 @@ func (w *world) enabled() []string {
 			continue
 		}
 		out = append(out, fmt.Sprintf("rclose:%d", c.idx), fmt.Sprintf("lclose:%d", c.idx))
+		if w.kinds {
+			for _, k := range moreCloseKinds {
+				out = append(out, fmt.Sprintf("ev/%s:%d", k, c.idx))
+			}
+			for _, k := range quietKinds {
+				if k == api.OnReadTimeout && w.hb() != nil {
+					continue // the event hb
+				}
+				out = append(out, fmt.Sprintf("ev/%s:%d", k, c.idx))
+			}
+		}
 		if w.d.GoAwayBytes() != nil {
 			out = append(out, fmt.Sprintf("goaway:%d", c.idx))
 		}
@@ -1239,6 +1482,9 @@ func (w *world) enabled() []string {
 		for _, c := range w.conns {
 			if c.open() && len(w.hbsOn(c, hbOut)) == 0 && len(w.hbsOn(c, hbStale)) < hd.MaxStale() {
 				out = append(out, fmt.Sprintf("hb:%d", c.idx))
+				if w.kinds {
+					out = append(out, fmt.Sprintf("hb/wto:%d", c.idx))
+				}
 			}
 		}
 		for _, h := range w.hbs {
@@ -1262,7 +1508,20 @@ func (w *world) enabled() []string {
 		}
 	}
 	if x, ok := w.d.(ExtraEvents); ok {
-		out = append(out, x.ExtraEnabled(w.pool)...)
+		ex := x.ExtraEnabled(w.pool)
+		out = append(out, ex...)
+		if _, ok := w.d.(ExtraKinds); ok && w.kinds {
+			for _, e := range ex {
+				for _, k := range allCloseKinds {
+					if k != api.RemoteClose { // (the plain extra event is the RemoteClose)
+						out = append(out, e+"/"+string(k))
+					}
+				}
+				for _, k := range quietKinds {
+					out = append(out, e+"/"+string(k))
+				}
+			}
+		}
 	}
 	return out
 }
@@ -1572,7 +1831,7 @@ func eventClass(ev, outcome string, attempts int) string {
 		name = ev[:i]
 	}
 	if strings.HasPrefix(name, "new") {
-		if attempts == 0 {
+		if attempts == 0 && name != "new/wto" && name != "new/werr" { // (the write fault does not depend on a connection attempt)
 			name = "new"
 		}
 		if outcome == "" {
@@ -1604,6 +1863,7 @@ func runHistory(d Driver, cfg Cfg, hist []string, probe int) (res result) {
 		}
 	}()
 	w = newWorld(d, cfg)
+	w.kinds = os.Getenv("VERIF_C09_KINDS") != "0" // (development switch: the alphabet without the connection event kinds)
 	w.syncConns()
 	var pre map[string]sv
 	for i, ev := range hist {
@@ -1842,9 +2102,26 @@ search:
 	}
 	b, _ := json.Marshal(cfgs)
 	p.End(complete,
-		fmt.Sprintf("pool %s: every history of <= %d events from {NewStream (connect ok / fails / times out), reply(s), local reset(s), remote close(c), local close(c), go-away, %s%spool Shutdown, pool Close, request slot taken/released by another pool of the cluster} under thresholds %s, successors expanded from every distinct canonical state", d.Name(), depth,
-			map[bool]string{true: "garbage response(s), ", false: ""}[d.GarbageBytes() != nil], hbAlphabet(d), b),
+		fmt.Sprintf("pool %s: every history of <= %d events from {NewStream (connect ok / fails / times out), reply(s), local reset(s), remote close(c), local close(c), go-away, %s%s%spool Shutdown, pool Close, request slot taken/released by another pool of the cluster} under thresholds %s, successors expanded from every distinct canonical state", d.Name(), depth,
+			map[bool]string{true: "garbage response(s), ", false: ""}[d.GarbageBytes() != nil], hbAlphabet(d), kindsAlphabet(d), b),
 		"BFS; a state is an event history replayed on a fresh pool/host/cluster info/resource manager over fake connections; merged on the canonical form (per connection in creation order: open, in-flight streams, idle-list position and client flags, slot, taints; pool counters; Requests.Cur; active-stat deltas; model memory); distinct = distinct (cfg, canonical state); outcome = class of the last event; oracle I1-I5 evaluated in every state, new violations attributed to the last event; I4 probed from every new state without leases; not compared (statement silent): which idle connection is picked, behaviour after Shutdown (I2, I4), other stats")
+}
+
+func kindsAlphabet(d Driver) string {
+	if os.Getenv("VERIF_C09_KINDS") == "0" {
+		return ""
+	}
+	s := "close of c with every other close kind (OnReadErrClose, OnWriteErrClose, OnWriteTimeout), "
+	if _, ok := d.(Heartbeats); ok {
+		s += "idle read timeout(c) whose heartbeat write runs into the write deadline (OnWriteTimeout close of an idle or leased connection inside the keep-alive's send), connection event OnShutdown delivered to c (no close), "
+	} else {
+		s += "connection events OnReadTimeout / OnShutdown delivered to c (no close), "
+	}
+	s += "NewStream whose request write runs into the write deadline (the connection closes itself with OnWriteTimeout inside the write) / fails with EPIPE (no close), "
+	if _, ok := d.(ExtraKinds); ok {
+		s += "close of the downstream connection with each of the 5 close kinds, OnReadTimeout / OnShutdown delivered to the downstream connection (no close), "
+	}
+	return s
 }
 
 func hbAlphabet(d Driver) string {
